@@ -40,9 +40,9 @@ BUDGET = {"quick": 400, "thorough": 3000}
 
 
 def cases(tier, seed):
-    n = 28 if tier == "quick" else 400
+    n = 28 if tier == "quick" else 1500
     out = [{"sub": "mol", "i": i} for i in range(n)]
-    out += [{"sub": "rotation", "i": i} for i in range(6 if tier == "quick" else 100)]
+    out += [{"sub": "rotation", "i": i} for i in range(6 if tier == "quick" else 400)]
     return out
 
 
